@@ -12,6 +12,8 @@ type docCase struct {
 	Target string          `json:"target"` // kind (Go type) the document is decoded into
 	Route  string          `json:"route,omitempty"`
 	Doc    json.RawMessage `json:"doc"`
+	// EscapedNames: the document is handed to the decoder with every member name written in \uXXXX escapes
+	EscapedNames bool `json:"escaped_names,omitempty"`
 }
 
 func normMember(t string) string {
@@ -75,7 +77,11 @@ func c01Exec(c *Ctx, cs docCase, parsed interface{}) (outcome string) {
 		_ = json.Unmarshal(c01Poison, newTarget("schema"))
 	}
 	tgt := newTarget(cs.Target)
-	if err := json.Unmarshal(cs.Doc, tgt); err != nil {
+	input := []byte(cs.Doc)
+	if cs.EscapedNames {
+		input = escapeNames(input)
+	}
+	if err := json.Unmarshal(input, tgt); err != nil {
 		c.Violate(Violation{Oracle: "json-roundtrip", Class: "decode-error", Detail: err.Error(), Features: feat(), Case: cs})
 		return "decode-error"
 	}
@@ -172,6 +178,16 @@ func c01Run(c *Ctx) {
 			o := c01Exec(c, cs, parsed)
 			c.Res.Evaluations++
 			c.Res.Transitions++
+			if cs.Route == "" && o == "ok" {
+				// the same JSON value with every member name spelled in \uXXXX escapes
+				esc := cs
+				esc.EscapedNames = true
+				if o2 := c01Exec(c, esc, parsed); o2 != "ok" {
+					o = "escaped-names:" + o2
+				}
+				c.Res.Evaluations++
+				c.Res.Transitions++
+			}
 			ka := int64(0)
 			for _, v := range c.Res.Known {
 				ka += v
@@ -203,7 +219,7 @@ func c01Run(c *Ctx) {
 func init() {
 	register(&CheckDef{
 		ID: "C01", Build: "light", Run: c01Run, RunCase: c01RunCase,
-		Rule: "states = every normal-form object of each of the 17 kinds with cost <= bound (cost = optional members in the whole tree + non-default name/payload choices; alphabets in h/vocab.go, cross-checked against the shipped meta-schemas), each decoded directly and embedded along every route to the Swagger root (every container type on the route is a decode target); every decode is preceded by the decode of a refused document into the same type (history: nothing learnt from rejected input may leak); non-trivial = state with at least one optional member",
+		Rule: "states = every normal-form object of each of the 17 kinds with cost <= bound (cost = optional members in the whole tree + non-default name/payload choices; alphabets in h/vocab.go, cross-checked against the shipped meta-schemas), each decoded directly and embedded along every route to the Swagger root (every container type on the route is a decode target); every decode is preceded by the decode of a refused document into the same type (history: nothing learnt from rejected input may leak); every directly decoded document is decoded a second time with all its member names written in \\uXXXX escapes; non-trivial = state with at least one optional member",
 		Assumptions: []string{
 			"normal form as stated by C01: no nulls as members, no empty optional values, single-valued type, float64-exact numbers, no case-variant names, lower-case x- prefix, canonical $ref spellings",
 			"JSON values are compared numerically and member order is ignored",
